@@ -172,6 +172,8 @@ def from_basic(node, b, ctx):
                 except TypeError:
                     return UNSPEC
             return OK(out)
+        if (kf or vf) and isinstance(b, (list, tuple)):
+            return UNSPEC   # a sequence of pairs where a map is expected: documentation leaves it open
         return OK(b)
     return OK(b)
 
@@ -364,6 +366,25 @@ def write_doc(fmt, tree, opts=None):
     raise ValueError(fmt)
 
 
+def parse_doc(fmt, content, opts=None):
+    """The tree the underlying parser yields (trusted base); XML is the library's own typed encoding, so
+    for XML the caller keeps the tree it wrote.  Used so that expectations follow the map order of the
+    *document* (YAML sorts keys when dumping)."""
+    opts = opts or {}
+    if fmt == "json":
+        return json.loads(content.decode())
+    if fmt == "yaml":
+        t = yaml.load(content.decode(), Loader=yaml.Loader)
+        if opts.get("root_key") and isinstance(t, dict) and opts["root_key"] in t:
+            t = t[opts["root_key"]]
+        return t
+    if fmt == "bson":
+        return bson.loads(content)
+    if fmt == "pickle":
+        return pickle.loads(content)
+    raise ValueError(fmt)
+
+
 def doc_parses(fmt, content, opts=None):
     """Does the underlying parser accept these bytes (and, for XML, is the root the expected one)?"""
     opts = opts or {}
@@ -387,7 +408,7 @@ def doc_parses(fmt, content, opts=None):
         return False
 
 
-_XML_NAME = re.compile(r"^[A-Za-z_][A-Za-z0-9_.\-]*$")
+_XML_NAME = re.compile(r"\A[A-Za-z_][A-Za-z0-9_.\-]*\Z")
 _XML_BAD = re.compile("[\x00-\x08\x0b\x0c\x0e-\x1f\r\ud800-\udfff￾￿]")
 
 
